@@ -1,7 +1,219 @@
-"""C18 (stub while building)"""
+"""C18 -- timestamps convert to and from DOS format without loss or panic (DESIGN.md §3 C18).
+
+Decides: pack and unpack are mutually inverse bit-field tables covering all 32 bits (C18-BITS); the checked constructor's
+ranges are the documented ones and the calendar conversion guards the year on the very value it stores (C18-RANGE); every
+construction of DateTime establishes year in [1980, 2107], which discharges the only arithmetic that could panic (C18-INV-YEAR,
+C18-PANIC); fields are private (C18-PRIV); to_time propagates every constructor error (C18-CAL)."""
+import re
+
+from engine.expr import Ex, norm, show, walk, alts
+from engine.intervals import Intervals, dominating_facts
+from engine.mir import AnchorLost, callee_matches
+from engine.paths import paths, decided, called, outcome
+from engine.query import aggregates, calls_matching, where, ret_alts
+from rules.shared_codec import tokens
 from rules.shared_panic import panic_rule, is_time_root
+
+# MS-DOS date/time layout: field -> (word, low bit, width, scale shift, offset)
+LAYOUT = {
+    "second": ("time", 0, 5, 1, 0),    # seconds / 2
+    "minute": ("time", 5, 6, 0, 0),
+    "hour": ("time", 11, 5, 0, 0),
+    "day": ("date", 0, 5, 0, 0),
+    "month": ("date", 5, 4, 0, 0),
+    "year": ("date", 9, 7, 0, 1980),
+}
+
+
+def _strip(e):
+    while e[0] == "cast":
+        e = e[1]
+    return e
+
+
+def bits_rules(facts, rep):
+    rule = "C18-BITS"
+    ok = True
+    fm = facts.one(r"^types::DateTime::from_msdos$")
+    ex = Ex(fm)
+    ag = list(aggregates(fm, r"types::DateTime$"))
+    if len(ag) != 1:
+        raise AnchorLost("DateTime construction in from_msdos")
+    bi, si, s, flds = ag[0]
+    masks = {"time": 0, "date": 0}
+    for name, (word, low, width, scale, offset) in LAYOUT.items():
+        e = _strip(norm(ex.operand(flds[name], (bi, si))))
+        want_mask = ((1 << width) - 1) << low
+        # decompose: [Add(.., offset)] [Shl(.., scale)] [Shr(.., low)] BitAnd(arg, mask)
+        off = 0
+        if e[0] == "bin" and e[1] == "Add" and e[3][0] == "const":
+            off, e = e[3][2], _strip(e[2])
+        shl = 0
+        if e[0] == "bin" and e[1] == "Shl" and e[3][0] == "const":
+            shl, e = e[3][2], _strip(e[2])
+        shr = 0
+        if e[0] == "bin" and e[1] == "Shr" and e[3][0] == "const":
+            shr, e = e[3][2], _strip(e[2])
+        good = e[0] == "bin" and e[1] == "BitAnd" and e[3][0] == "const" and e[2][0] == "arg" and e[2][2] == word + "part"
+        mask = e[3][2] if good else None
+        good = good and mask == want_mask and shr == low and shl == scale and off == offset
+        if mask is not None:
+            if masks[word] & mask:
+                good = False
+            masks[word] |= mask
+        ok &= rep.check(good, rule, "unpack:%s" % name, where(fm, s["span"]),
+                        "%s = ((%spart & %#06x) >> %d)%s%s" % (name, word, want_mask, low, " << %d" % scale if scale else "", " + %d" % offset if offset else ""),
+                        "from_msdos computes %s as %s; MS-DOS layout: bits %d..%d of the %s word%s" % (
+                            name, show(norm(ex.operand(flds[name], (bi, si)))), low, low + width - 1, word, ", stored /2" if scale else ""))
+    for w in ("time", "date"):
+        ok &= rep.check(masks[w] == 0xFFFF, rule, "unpack:%s-word-covered" % w, where(fm, s["span"]), "the three masks of the %s word are disjoint and cover all 16 bits" % w,
+                        "masks of the %s word cover %#06x" % (w, masks[w]))
+    # pack
+    for fn_name, word in (("timepart", "time"), ("datepart", "date")):
+        f = facts.one(r"^types::DateTime::%s$" % fn_name)
+        ra = ret_alts(f)
+        good = len(ra) == 1
+        parts = {}
+        if good:
+            def flatten(e):
+                if e[0] == "bin" and e[1] == "BitOr":
+                    return flatten(e[2]) + flatten(e[3])
+                return [e]
+            for t in flatten(ra[0]):
+                t = _strip(t)
+                shl = shr = off = 0
+                if t[0] == "bin" and t[1] == "Shl" and t[3][0] == "const":
+                    shl, t = t[3][2], _strip(t[2])
+                if t[0] == "bin" and t[1] == "Shr" and t[3][0] == "const":
+                    shr, t = t[3][2], _strip(t[2])
+                if t[0] == "bin" and t[1] == "Sub" and t[3][0] == "const":
+                    off, t = t[3][2], _strip(t[2])
+                if t[0] == "field" and t[1] == ("arg", 1, "self"):
+                    parts[t[2]] = (shl, shr, off)
+                else:
+                    parts["?" + show(t)[:40]] = (shl, shr, off)
+        want = {n: (l[1], l[3], l[4]) for n, l in LAYOUT.items() if l[0] == word}
+        good = good and parts == want
+        ok &= rep.check(good, rule, "pack:%s" % fn_name, where(f, f.span), "%s() = OR of %s" % (fn_name, {n: "(<<%d, >>%d, -%d)" % v for n, v in want.items()}),
+                        "%s() packs %s; the inverse of from_msdos is %s (field: shift left, scale shift right, offset)" % (fn_name, parts, want))
+    return ok
+
+
+def range_rules(facts, rep):
+    rule = "C18-RANGE"
+    ok = True
+    f = facts.one(r"^types::DateTime::from_date_and_time$")
+    ps = paths(f)
+    rep.count("ctor_paths", len(ps))
+    oks = [p for p in ps if outcome(p)[0] == "Ok"]
+    good = len(oks) == 1
+    DOC = {"year": (1980, 2107), "month": (1, 12), "day": (1, 31), "hour": (None, 23), "minute": (None, 59), "second": (None, 60)}
+    seen = {}
+    if good:
+        for a, v in oks[0]["decisions"]:
+            m = re.match(r"RangeInclusive::contains\(RangeInclusive::new\((\d+), (\d+)\), (\w+)\)", a)
+            if m and v == 1:
+                seen[m.group(3)] = (int(m.group(1)), int(m.group(2)))
+            m = re.match(r"Le\((\w+), (\d+)\)", a)
+            if m and v == 1:
+                seen[m.group(1)] = (None, int(m.group(2)))
+            m = re.match(r"Lt\((\w+), (\d+)\)", a)
+            if m and v == 1:
+                seen[m.group(1)] = (None, int(m.group(2)) - 1)
+        o = outcome(oks[0])
+        flds = dict(o[1][3]) if o[1] and o[1][0] == "agg" else {}
+        good = seen == DOC and all(flds.get(k) is not None and flds[k][0] == "arg" and flds[k][2] == k for k in DOC)
+    ok &= rep.check(good, rule, "constructor-ranges", where(f, f.span), "Ok iff year 1980..=2107, month 1..=12, day 1..=31, hour <= 23, minute <= 59, second <= 60; fields stored unchanged",
+                    "from_date_and_time accepts %s; documented ranges are %s" % (seen, DOC))
+    errs = [p for p in ps if outcome(p)[0] == "Err"]
+    good = len(errs) == 6 and all(not p["effects"] or all(e[1].endswith("contains") for e in p["effects"]) for p in errs)
+    ok &= rep.check(good, rule, "one-rejection-per-field", where(f, f.span), "each field out of range => Err(())", "the constructor has %d rejecting paths (expected one per field)" % len(errs))
+    # TryFrom<OffsetDateTime>: the year guard is on the value that is stored
+    tf = facts.find(r"^<types::DateTime as std::convert::TryFrom<time::OffsetDateTime>>::try_from$")
+    if tf:
+        t = tf[0]
+        pst = paths(t)
+        okp = [p for p in pst if outcome(p)[0] == "Ok"]
+        good = len(okp) == 1
+        if good:
+            d = dict(okp[0]["decisions"])
+            o = outcome(okp[0])
+            flds = dict(o[1][3])
+            ysrc = show(_strip(flds["year"]))
+            good = d.get("Ge(%s, 1980)" % ysrc) == 1 and d.get("Le(%s, 2107)" % ysrc) == 1 and len(d) == 2 and ysrc == "OffsetDateTime::year(dt)"
+            for k, acc in (("month", "month"), ("day", "day"), ("hour", "hour"), ("minute", "minute"), ("second", "second")):
+                good = good and ("OffsetDateTime::%s(dt)" % acc) in show(flds[k])
+        ok &= rep.check(good, rule, "try_from-year-guard", where(t, t.span), "Ok iff 1980 <= dt.year() <= 2107, tested on the very value stored; other fields from the same dt",
+                        "TryFrom<OffsetDateTime> guards %s but stores year = %s -- the guard must be on the stored calendar year (offset-local), or impossible years get in" % (
+                            [a for a, v in okp[0]["decisions"]] if okp else "?", show(dict(outcome(okp[0])[1][3])["year"]) if okp else "?"))
+    return ok
+
+
+def inv_year_rules(facts, rep):
+    rule = "C18-INV-YEAR"
+    ok = True
+    n = 0
+    for f in facts.fns:
+        ex = Ex(f)
+        for bi, si, s, flds in aggregates(f, r"^types::DateTime$"):
+            n += 1
+            y = norm(ex.operand(flds["year"], (bi, si)))
+            fs = [x for x in dominating_facts(f, ex, bi) if x[0] != "truth"]
+            r = Intervals({}, fs).range_of(y, "u16")
+            good = 1980 <= r[0] and r[1] <= 2107
+            if not good:
+                # guarded through a RangeInclusive::contains(&year) test
+                for x in dominating_facts(f, ex, bi):
+                    if x[0] == "truth" and x[2] is True and x[1][0] == "call" and x[1][1].endswith("contains"):
+                        rg, val = x[1][2]
+                        if val == y and rg[0] == "call" and rg[1].endswith("RangeInclusive::<Idx>::new") and rg[2][0][2] >= 1980 and rg[2][1][2] <= 2107:
+                            good = True
+                # guarded on the un-cast source value
+                src = _strip(y)
+                r2 = Intervals({}, fs).range_of(src, "i32")
+                if 1980 <= r2[0] and r2[1] <= 2107:
+                    good = True
+            ok &= rep.check(good, rule, "year-in-range@%s" % f.path.split("::")[-1], where(f, s["span"]), "constructed with year in [1980, 2107] (%s)" % show(y)[:50],
+                            "DateTime constructed with year = %s, not provably within 1980..=2107: datepart()'s `year - 1980` can then overflow (panic) "
+                            "and the value does not fit the 7-bit DOS year" % show(y))
+    rep.floor(rule, 4, "default, from_msdos, from_date_and_time, try_from")
+    adt = facts.adts.get("types::DateTime")
+    if adt:
+        pub = [fl["name"] for fl in adt["variants"][0]["fields"] if "Public" in fl["vis"]]
+        ok &= rep.check(not pub, "C18-PRIV", "fields-private", adt["span"], "DateTime fields cannot be set from outside the crate", "public DateTime fields %s break the year invariant" % pub)
+    return ok
+
+
+def cal_rules(facts, rep):
+    rule = "C18-CAL"
+    tt = facts.find(r"^types::DateTime::to_time$")
+    if not tt:
+        return True
+    f = tt[0]
+    bad = [t["callee"] for _, t in f.calls() if callee_matches(t, r"::(unwrap|expect)$|^core::panicking")]
+    props = [t for _, t in f.calls() if callee_matches(t, r"Try::branch$")]
+    return rep.check(not bad and len(props) >= 3, rule, "to_time-propagates", where(f, f.span), "Month::try_from / Date::from_calendar_date / Time::from_hms errors propagated with ?",
+                     "to_time() can panic or drops a constructor error: %s" % bad)
 
 
 def run(ctx, rep):
     facts = ctx.facts
-    panic_rule(ctx, rep, "C18-PANIC", facts, is_time_root)
+    rep.configs.append("default")
+    rep.explanation = (
+        "DOS date/time, structurally: from_msdos' per-field (mask, shift, scale, offset) extracted from MIR equals the MS-DOS layout, masks "
+        "are disjoint and cover each 16-bit word; timepart/datepart are the exact inverse table -- hence bijective on all 2^32 values without "
+        "enumerating them; the checked constructor's accepting path carries exactly the six documented range atoms; TryFrom guards the year "
+        "on the very value it stores; every DateTime construction has year in [1980, 2107] by constant, interval or guard, which discharges "
+        "`year - 1980` in datepart(); fields are private; to_time propagates errors. Calendar correctness of the `time` crate is not decided.")
+    bits_rules(facts, rep)
+    range_rules(facts, rep)
+    void = set()
+    if not inv_year_rules(facts, rep):
+        void.add("C18-INV-YEAR")
+    cal_rules(facts, rep)
+    panic_rule(ctx, rep, "C18-PANIC", facts, is_time_root, void_rules=void)
+    rep.floor("C18-PANIC", 10)
+    rep.floor("C18-BITS", 10)
+    if ctx.tier == "thorough":
+        from rules.shared_panic import thorough_configs
+        thorough_configs(ctx, rep, "C18-PANIC", is_time_root, void)
